@@ -187,4 +187,253 @@ theorem catch_identifies_user_frame (lib : Str → Frame) (w : CatchRow) (hw : w
       · exact ⟨rfl, rfl⟩
       · simp [Gen.frameIndex, hc]; omega
 
+/-- DESIGN names: catch() as a decorator identifies the caller of the decorated function … -/
+theorem decorator_identifies_caller_of_decorated (lib : Str → Frame) (w : CatchRow) (hw : w ∈ Gen.catchRows)
+    (hdec : w.fromDecorator = true)
+    (opts : List Int) (d : Nat) (hopt : OptionsWithDepth opts d)
+    (caller : List Frame) (f : Frame) (hf : caller[d]? = some f) (ex : Exec) :
+    logViaCatch lib w opts caller ex = .ok (recordOf f ex) := by
+  apply catch_identifies_user_frame lib w hw ?_ opts d hopt caller f hf ex
+  intro h
+  have : w.fromDecorator = false := by
+    revert h hdec; revert w; decide
+  simp [this] at hdec
+
+/-- … and as a (synchronous) context manager the frame containing the block -/
+theorem context_manager_identifies_block_frame (lib : Str → Frame) (w : CatchRow) (hw : w ∈ Gen.catchRows)
+    (hshape : w.shape = "with".toList)
+    (opts : List Int) (d : Nat) (hopt : OptionsWithDepth opts d)
+    (block : List Frame) (f : Frame) (hf : block[d]? = some f) (ex : Exec) :
+    logViaCatch lib w opts block ex = .ok (recordOf f ex) := by
+  apply catch_identifies_user_frame lib w hw ?_ opts d hopt block f hf ex
+  rw [hshape]; decide
+
+/-- the table has a decorator row for every kind of callable `Catcher.__call__` distinguishes and
+the plain `with` row (non-vacuity of the two theorems above) -/
+theorem catch_rows_present :
+    (Gen.catchRows.filter (·.fromDecorator)).map (·.shape) =
+      ["coroutine", "generator", "asyncgen.asend", "function"].map String.toList ∧
+    (Gen.catchRows.filter (fun w => !w.fromDecorator)).map (·.shape) = ["with", "async with"].map String.toList := by
+  decide
+
+/-! ### `async with logger.catch()` – the full statement is FALSE of the current code -/
+
+/-- FULL statement (not provable: see `async_with_statement_false`): every catch() shape, the
+asynchronous context manager included, identifies the user's frame. -/
+def catch_all_shapes_statement : Prop :=
+  ∀ (lib : Str → Frame) (w : CatchRow), w ∈ Gen.catchRows →
+  ∀ (opts : List Int) (d : Nat), OptionsWithDepth opts d →
+  ∀ (us : List Frame) (f : Frame), us[d]? = some f → ∀ ex : Exec,
+    logViaCatch lib w opts us ex = .ok (recordOf f ex)
+
+/-- what the code does for `async with`: `__aexit__` calls `__exit__`, one frame more than
+`depth + 2` accounts for, so depth 0 names loguru's own `__aexit__` frame and depth d+1 names the
+frame that depth d should have named -/
+theorem async_with_off_by_one (lib : Str → Frame) (w : CatchRow) (hw : w ∈ Gen.catchRows)
+    (hshape : w.shape = "async with".toList)
+    (a0 a2 a3 a4 a5 a6 a7 a8 : Int) (us : List Frame) (ex : Exec) :
+    logViaCatch lib w [a0, 0, a2, a3, a4, a5, a6, a7, a8] us ex = .ok (recordOf (lib "__aexit__".toList) ex) ∧
+    ∀ (d : Nat) (f : Frame), us[d]? = some f →
+      logViaCatch lib w [a0, (d : Int) + 1, a2, a3, a4, a5, a6, a7, a8] us ex = .ok (recordOf f ex) := by
+  obtain ⟨_, _, _, hi, hj, _⟩ := options_layout_consistent
+  have hn : Gen.catchUnpackPrefix.length = 3 := by decide
+  have hn' : Gen.catchRepackPrefix.length = 3 := by decide
+  have hw' : w = { shape := "async with".toList, chain := ["__exit__".toList, "__aexit__".toList], fromDecorator := false } := by
+    revert hshape; revert w; decide
+  subst hw'
+  have hco : ∀ x : Int, catchOptions false [a0, x, a2, a3, a4, a5, a6, a7, a8] = .ok [1, x, 1, a3, a4, a5, a6, a7, a8] := by
+    intro x
+    simp [catchOptions, hi, hj, hn, hn', Gen.catchDepth, Gen.depthIndex, List.range, List.range.loop]
+  constructor
+  · unfold logViaCatch stackAtLog
+    simp only [hco]
+    have : (lib "_log".toList :: (List.map lib ["__exit__".toList, "__aexit__".toList] ++ us))
+        = [lib "_log".toList, lib "__exit__".toList] ++ (lib "__aexit__".toList :: us) := by simp
+    rw [this]
+    apply logCore_selects (depth := 0) (d := 0)
+    · exact ⟨rfl, rfl⟩
+    · simp [Gen.frameIndex]
+    · simp
+  · intro d f hf
+    unfold logViaCatch stackAtLog
+    simp only [hco]
+    rw [← List.cons_append]
+    apply logCore_selects (depth := (d : Int) + 1) (d := d) (hf := hf)
+    · exact ⟨rfl, rfl⟩
+    · simp [Gen.frameIndex]; omega
+
+/-- witness replayed on the implementation by harness/c17.py (leaf `async_with`, depth 0) -/
+theorem async_with_witness :
+    let lib : Str → Frame := fun fn => { gname := some (some "loguru._logger".toList), file := "_logger.py".toList, func := fn, line := 0 }
+    let user : Frame := { gname := some (some "__main__".toList), file := "app.py".toList, func := "block".toList, line := 12 }
+    ∀ w ∈ Gen.catchRows, w.shape = "async with".toList →
+      logViaCatch lib w [0, 0, 0, 0, 0, 0, 1, 0, 0] [user] ⟨1, [], 2, [], 10, 3⟩ ≠ .ok (recordOf user ⟨1, [], 2, [], 10, 3⟩) := by
+  intro lib user w hw hshape
+  rw [(async_with_off_by_one lib w hw hshape 0 0 0 0 0 1 0 0 [user] ⟨1, [], 2, [], 10, 3⟩).1]
+  intro h
+  have h2 := congrArg Record.line (Except.ok.inj h)
+  simp [recordOf, lib, user] at h2
+
+theorem async_with_statement_false : ¬ catch_all_shapes_statement := by
+  intro h
+  let lib : Str → Frame := fun fn => { gname := some (some "loguru._logger".toList), file := "_logger.py".toList, func := fn, line := 0 }
+  let user : Frame := { gname := some (some "__main__".toList), file := "app.py".toList, func := "block".toList, line := 12 }
+  have hw : ({ shape := "async with".toList, chain := ["__exit__".toList, "__aexit__".toList], fromDecorator := false } : CatchRow)
+      ∈ Gen.catchRows := by decide
+  have h1 := h lib _ hw [0, 0, 0, 0, 0, 0, 1, 0, 0] 0 ⟨rfl, rfl⟩ [user] user rfl ⟨1, [], 2, [], 10, 3⟩
+  exact async_with_witness _ hw rfl h1
+
+/-! ### thread, process, time, elapsed; totality -/
+
+/-- whatever frame is selected (inside the stack, beyond it, even for a negative depth): the call
+does not fail, and thread / process / time are those of the executing context and
+`elapsed = now - start_time` -/
+theorem never_fails_and_identifies_context (stack : List Frame) (options : List Int) (depth : Int)
+    (hopt : OptionsWithDepth options depth) (ex : Exec) :
+    ∃ r, logCore stack options ex = .ok r ∧
+      r.threadId = .int ex.threadId ∧ r.threadName = .str ex.threadName ∧
+      r.processId = .int ex.processId ∧ r.processName = .str ex.processName ∧
+      r.time = .int ex.now ∧ r.elapsed = .int (ex.now - ex.start) := by
+  unfold logCore
+  rw [unpackDepth_ok options depth hopt]
+  have hsel : ∃ l, selectLocals stack depth = .ok l := by
+    unfold selectLocals getFrame
+    cases stack[(Gen.frameIndex depth).toNat]? with
+    | some f => exact ⟨_, rfl⟩
+    | none => exact ⟨placeholderLocals, by simp [Gen.beyondStackHandled]⟩
+  obtain ⟨l, hl⟩ := hsel
+  simp only [hl, lookupName_total]
+  refine ⟨_, rfl, ?_⟩
+  simp [mkRecord, evalLocal, Gen.recThreadId, Gen.recThreadName, Gen.recProcessId, Gen.recProcessName,
+    Gen.recTime, Gen.recElapsed, Gen.elapsed]
+
+/-- every entry point inherits totality: a logging method on any stack with any depth ≥ 0 … -/
+theorem methods_never_fail (lib : Str → Frame) (m : MethodRow) (hm : m ∈ Gen.methods)
+    (opts : List Int) (depth : Int) (hopt : OptionsWithDepth opts depth) (us : List Frame) (ex : Exec) :
+    ∃ r, logViaMethod lib m opts us ex = .ok r := by
+  obtain ⟨_, _, hpres⟩ := all_methods_same_distance
+  obtain ⟨hl, hk⟩ := hpres m hm 1 opts hopt.1
+  have hopt' : OptionsWithDepth (m.opts.eval 1 opts) depth :=
+    ⟨hl, by simpa [Gen.depthIndex, hopt.2] using hk⟩
+  obtain ⟨r, hr, _⟩ := never_fails_and_identifies_context (stackAtLog lib m.chain us) _ depth hopt' ex
+  exact ⟨r, hr⟩
+
+/-- `elapsed` never decreases over any sequence of calls whose clock readings do not decrease
+(the hypothesis is the wall clock's, not the code's) -/
+theorem elapsed_monotone_if_clock_monotone (start : Int) (readings : List Int)
+    (hclock : readings.Pairwise (· ≤ ·)) :
+    (readings.map (fun now => Gen.elapsed now start)).Pairwise (· ≤ ·) := by
+  rw [List.pairwise_map]
+  exact hclock.imp (by intro a b h; simp only [Gen.elapsed]; omega)
+
+/-- … and it is non-negative for calls made after the module was imported -/
+theorem elapsed_nonneg (start now : Int) (h : start ≤ now) : 0 ≤ Gen.elapsed now start := by
+  simp only [Gen.elapsed]; omega
+
+/-! ### what `depth` means: dropping frames -/
+
+/-- logging with depth `d` is logging with depth 0 from the stack with `d` frames removed – a
+wrapper that logs with `opt(depth=1)` is indistinguishable from its caller logging directly -/
+theorem depth_is_stack_drop (lib : Str → Frame) (m : MethodRow) (hm : m ∈ Gen.methods)
+    (a0 a2 a3 a4 a5 a6 a7 a8 : Int) (d : Nat) (us : List Frame) (ex : Exec) :
+    logViaMethod lib m [a0, (d : Int), a2, a3, a4, a5, a6, a7, a8] us ex =
+    logViaMethod lib m [a0, 0, a2, a3, a4, a5, a6, a7, a8] (us.drop d) ex := by
+  cases hf : us[d]? with
+  | some f =>
+    rw [frame_is_caller_plus_depth lib m hm _ d ⟨rfl, rfl⟩ us f hf ex,
+        frame_is_caller_plus_depth lib m hm _ 0 ⟨rfl, rfl⟩ (us.drop d) f (by simpa using hf) ex]
+  | none =>
+    have hlen : us.length ≤ d := by simpa using hf
+    rw [beyond_stack_placeholders lib m hm _ d ⟨rfl, rfl⟩ us hlen ex,
+        beyond_stack_placeholders lib m hm _ 0 ⟨rfl, rfl⟩ (us.drop d) (by simp; omega) ex]
+
+/-! ### file name and module -/
+
+theorem basenameGo_spec (acc p : Str) :
+    (∃ pre, acc ++ p = pre ++ basenameGo acc p) ∧ ('/' ∉ acc → '/' ∉ basenameGo acc p) := by
+  induction p generalizing acc with
+  | nil => exact ⟨⟨[], by simp [basenameGo]⟩, by simp [basenameGo]⟩
+  | cons c cs ih =>
+    unfold basenameGo
+    by_cases hc : c = '/'
+    · simp only [hc, ↓reduceIte]
+      obtain ⟨⟨pre, hpre⟩, hno⟩ := ih []
+      refine ⟨⟨acc ++ '/' :: pre, ?_⟩, fun _ => hno (by simp)⟩
+      have hcs : cs = pre ++ basenameGo [] cs := by simpa using hpre
+      rw [List.append_assoc, List.cons_append, ← hcs]
+    · simp only [hc, ↓reduceIte]
+      obtain ⟨⟨pre, hpre⟩, hno⟩ := ih (acc ++ [c])
+      refine ⟨⟨pre, by simpa using hpre⟩, fun h => hno ?_⟩
+      simp [h]; exact fun h' => hc h'.symm
+
+/-- `file.name` is the part of `file.path` after the last '/': a suffix without '/' -/
+theorem file_name_is_last_component (p : Str) :
+    (∃ pre, p = pre ++ basename p) ∧ '/' ∉ basename p := by
+  obtain ⟨⟨pre, h⟩, hno⟩ := basenameGo_spec [] p
+  exact ⟨⟨pre, by simpa [basename] using h⟩, by simpa [basename] using hno (by simp)⟩
+
+theorem splitLastDot_spec (s a b : Str) (h : splitLastDot s = some (a, b)) : s = a ++ '.' :: b ∧ '.' ∉ b := by
+  induction s generalizing a b with
+  | nil => simp [splitLastDot] at h
+  | cons c cs ih =>
+    unfold splitLastDot at h
+    cases hs : splitLastDot cs with
+    | some ab =>
+      obtain ⟨a', b'⟩ := ab
+      simp only [hs, Option.some.injEq, Prod.mk.injEq] at h
+      obtain ⟨rfl, rfl⟩ := h
+      obtain ⟨h1, h2⟩ := ih a' b' hs
+      exact ⟨by simp [← h1], h2⟩
+    | none =>
+      simp only [hs] at h
+      by_cases hc : c = '.'
+      · simp only [hc, ↓reduceIte, Option.some.injEq, Prod.mk.injEq] at h
+        obtain ⟨rfl, rfl⟩ := h
+        refine ⟨by simp [hc], ?_⟩
+        clear ih
+        induction cs with
+        | nil => simp
+        | cons x xs ihx =>
+          unfold splitLastDot at hs
+          cases hx : splitLastDot xs with
+          | some ab => simp [hx] at hs
+          | none =>
+            simp only [hx] at hs
+            by_cases hxd : x = '.'
+            · simp [hxd] at hs
+            · simp only [List.mem_cons, not_or]
+              exact ⟨fun h => hxd h.symm, ihx hx⟩
+      · simp [hc] at h
+
+/-- `module` is `file.name` without its last extension: a prefix of it, and what was cut starts
+with the last '.' of the name -/
+theorem module_is_file_name_without_extension (name : Str) :
+    stem name = name ∨ ∃ ext, name = stem name ++ '.' :: ext ∧ '.' ∉ ext := by
+  unfold stem
+  cases h : splitLastDot name with
+  | none => simp
+  | some ab =>
+    obtain ⟨a, b⟩ := ab
+    simp only
+    split
+    · exact Or.inl rfl
+    · exact Or.inr ⟨b, splitLastDot_spec name a b h⟩
+
+/-! ### non-vacuity -/
+
+example : ∃ m, m ∈ Gen.methods ∧ m.name = "exception".toList ∧ m.opts = .prependDrop 1 1 := by decide
+example : OptionsWithDepth [0, 3, 0, 0, 0, 0, 1, 0, 0] 3 := ⟨rfl, rfl⟩
+example :
+    let lib : Str → Frame := fun fn => ⟨some (some "loguru._logger".toList), "_logger.py".toList, fn, 0⟩
+    let f0 : Frame := ⟨some (some "app".toList), "/srv/app.py".toList, "handler".toList, 10⟩
+    let f1 : Frame := ⟨none, "<string>".toList, "<module>".toList, 1⟩
+    ∀ m ∈ Gen.methods,
+      logViaMethod lib m [0, 1, 0, 0, 0, 0, 1, 0, 0] [f0, f1] ⟨7, [], 8, [], 100, 40⟩
+        = .ok (recordOf f1 ⟨7, [], 8, [], 100, 40⟩) ∧
+      (recordOf f1 ⟨7, [], 8, [], 100, 40⟩).name = .optStr none ∧
+      (recordOf f0 ⟨7, [], 8, [], 100, 40⟩).module = .str "app".toList := by
+  intro lib f0 f1 m hm
+  exact ⟨frame_is_caller_plus_depth lib m hm _ 1 ⟨rfl, rfl⟩ [f0, f1] f1 rfl _, by decide, by decide⟩
+example : [1, 5, 5, 9].Pairwise (· ≤ ·) := by decide
+
 end C17
